@@ -25,6 +25,11 @@ THEOREMS = [
     "Aio.C09.truncated_clean_eof_counterexample",
     "Aio.C09.read_capped",
     "Aio.C09.progress_counterexample_stale_pause",
+    "Aio.C09.progress_counterexample_stale_pause_siblings",
+    "Aio.C09.needs_input_clears_pause",
+    "Aio.C09.no_stale_pause",
+    "Aio.C09.no_stale_pause_current",
+    "Aio.C09.stale_pause_scenarios_repaired",
     "Aio.C09.lost_body_counterexample_peer_close",
     "Aio.C09.lost_body_counterexample_chunked_close",
     "Aio.C09.parked_reader_misses_error_counterexample",
@@ -38,10 +43,17 @@ RULE = ("a case = (side client|server, encoding identity|gzip|deflate|raw-deflat
         "error class, buffered size, the four pause/pending flags, eof, total_bytes, peak size. non-trivial = at least one "
         "body byte reached the reader or an error was reported; distinct by full case content.")
 TRUSTED_BASE = [
+    "behaviour flag needsInputClearsPause: probed on every run by driving a real HttpPayloadParser + StreamReader through a "
+    "feed_data() call that is asked to pause and returns PAYLOAD_NEEDS_INPUT at each of its return sites; written to "
+    "lean/AioModel/Generated/C09.lean; the model is parametric in it (World.clearOnNeeds) and the theorems hold for both values "
+    "(counterexamples for false, no_stale_pause for true)",
     "zlib / brotli / zstd and aiohttp.compression_utils are NOT modelled: the decompressor is the parameter `Codec` of every "
     "theorem; its laws (Codec.Lawful: output <= max_length, data_available implies non-empty output, concatenated outputs "
     "refine the one-shot decode) are only tested, on every generated payload, against the real ZLibDecompressor / "
     "BrotliDecompressor / ZSTDDecompressor",
+    "Brotli (python binding 1.2) honours max_length only up to whole output blocks of doubling size: a call returns up to "
+    "2*max_length + 32 KiB (known finding K7); the additive-slack form of Codec.Lawful.bounded fits zlib and zstd (slack 0) and "
+    "brotli only for max_length <= 32 KiB",
     "the correspondence run replays recorded decompressor results into the model (scripted codec), so it validates the "
     "pipeline control flow, not the decompressors",
     "in-memory transport: pause_reading/resume_reading honoured exactly; connection_lost(None) is delivered even while "
@@ -68,8 +80,74 @@ ASSUMPTIONS = [
     "progress is judged for a consumer that keeps reading, with the complete body on the wire",
 ]
 MAXSIZE = sys.maxsize
-BROTLI_SLACK = 32768   # Brotli's Decompressor.process(data, limit) may exceed `limit` by up to one block
+BROTLI_SLACK = 32768
+# Brotli's Decompressor.process(data, limit) fills whole output blocks of doubling size (32 KiB, 64 KiB, 128 KiB, ...) and
+# stops only when the total is >= limit: a call returns up to 2*limit + 32 KiB (measured: limit 1 -> 32752, 32753 -> 98272,
+# 100000 -> 229328).  That is known finding K7; anything beyond this shape is a different violation.
+def brotli_call_max(m):
+    return 2 * m + BROTLI_SLACK
 LIMITS = [1, 2, 3, 5, 16, 100, 1024, 4096, 4096, 16384, 65536]
+
+
+# ------------------------------------------------------------------------------------ behaviour flag probed from the source
+def probe_needs_input_clears_pause():
+    """Behavioural probe (no text matching): a real HttpPayloadParser feeds a real StreamReader (limit 4, high water 8)
+    whose protocol forwards pause_reading() to the parser, as BaseProtocol does.  One feed_data() call pushes 9 bytes
+    (the reader asks for a pause inside the call) and returns PAYLOAD_NEEDS_INPUT at the site under test; is `_paused`
+    still set afterwards?  -> {site: cleared?}"""
+    from aiohttp.http_parser import HttpPayloadParser, HeadersParser, PayloadState
+    from aiohttp.streams import StreamReader
+    from unittest import mock
+    loop = asyncio.new_event_loop()
+    x9 = b"X" * 9
+    sites = [
+        ("chunk-boundary", dict(chunked=True), b"9\r\n" + x9 + b"\r\n"),           # loop exit -> final return
+        ("before-crlf", dict(chunked=True), b"9\r\n" + x9),                           # chunk-EOF incomplete
+        ("mid-size-line", dict(chunked=True), b"9\r\n" + x9 + b"\r\n5"),            # size line incomplete
+        ("trailers", dict(chunked=True), b"9\r\n" + x9 + b"\r\n0\r\nX-T: a"),      # trailers incomplete
+        ("length", dict(length=20), x9),                                               # final return, PARSE_LENGTH
+        ("until-eof", dict(), x9),                                                     # final return, PARSE_UNTIL_EOF
+    ]
+    res = {}
+    try:
+        for name, kw, data in sites:
+            holder = {}
+            proto = mock.Mock()
+            proto.pause_reading.side_effect = lambda: holder["pp"].pause_reading()
+            sr = StreamReader(proto, 4, loop=loop)
+            pp = HttpPayloadParser(sr, headers_parser=HeadersParser(), limit=4, **kw)
+            holder["pp"] = pp
+            state, _ = pp.feed_data(data)
+            if state is not PayloadState.PAYLOAD_NEEDS_INPUT or not proto.pause_reading.called:
+                raise RuntimeError(f"probe site {name}: state={state!r} pause requested={proto.pause_reading.called}")
+            res[name] = not pp._paused
+        # control: the mid-chunk return clears the flag in both versions of the code
+        holder = {}
+        proto = mock.Mock()
+        proto.pause_reading.side_effect = lambda: holder["pp"].pause_reading()
+        pp = HttpPayloadParser(StreamReader(proto, 4, loop=loop), chunked=True, headers_parser=HeadersParser(), limit=4)
+        holder["pp"] = pp
+        pp.feed_data(b"e\r\n" + x9)
+        res["mid-chunk(control)"] = not pp._paused
+    finally:
+        loop.close()
+    return res
+
+
+def generate(repo):
+    res = probe_needs_input_clears_pause()
+    sites = {k: v for k, v in res.items() if not k.endswith("(control)")}
+    flag = all(sites.values())
+    detail = " ".join(f"{k}={v}" for k, v in res.items())
+    body = (
+        "-- GENERATED by harness/c09.py from the imported aiohttp.http_parser — do not edit\n"
+        "namespace Aio.Gen.C09\n"
+        "/-- probe: a real `HttpPayloadParser` whose reader asks for a pause during a `feed_data` call that\n"
+        "returns PAYLOAD_NEEDS_INPUT has `_paused == False` afterwards, at every such return\n"
+        f"(sites: {detail}) -/\n"
+        f"def needsInputClearsPause : Bool := {'true' if flag else 'false'}\n"
+        "end Aio.Gen.C09\n")
+    return {"AioModel/Generated/C09.lean": body}
 
 
 # ------------------------------------------------------------------------------------ codecs
@@ -868,11 +946,11 @@ def oracle(ctx, case, info):
     if header_encoding(enc) and info["low"] < MAXSIZE:
         bound = info["high"] + 2 * max(limit, info["low"])
         if info["peak"] > bound:
-            per_call_ok = all(o is None or m == 0 or len(o) <= m + BROTLI_SLACK for (_i, m, o, _a, _e) in info["calls"])
-            if enc == "br" and info["peak"] <= bound + 2 * BROTLI_SLACK and per_call_ok:
+            per_call_ok = all(o is None or m == 0 or len(o) <= brotli_call_max(m) for (_i, m, o, _a, _e) in info["calls"])
+            if enc == "br" and info["peak"] <= info["high"] + 2 * brotli_call_max(max(limit, info["low"])) and per_call_ok:
                 ctx.violation("C09/memory/brotli-overshoots-max-length", c,
                               f"peak buffered {info['peak']} > high_water {info['high']} + 2*max(limit, low_water) = {bound}: "
-                              f"brotli returns up to one 32 KiB block per call whatever max_length says")
+                              f"brotli returns whole output blocks (32 KiB, 64 KiB, ... up to 2*max_length + 32 KiB per call) whatever max_length says")
             else:
                 ctx.violation("C09/memory/decoded-resident-exceeds-bound", c,
                               f"peak buffered {info['peak']} > high_water {info['high']} + 2*max(limit, low_water) = {bound}")
@@ -890,8 +968,8 @@ def oracle(ctx, case, info):
 
 
 def _law_bounded(ctx, case, enc, n, m):
-    if enc == "br" and n <= m + BROTLI_SLACK:
-        ctx.violation("C09/memory/brotli-overshoots-max-length", case, f"br: output {n} > max_length {m} (within one 32 KiB block)")
+    if enc == "br" and n <= brotli_call_max(m):
+        ctx.violation("C09/memory/brotli-overshoots-max-length", case, f"br: output {n} > max_length {m} (whole doubling blocks, <= 2*max_length + 32 KiB)")
     else:
         ctx.violation("C09/codec-law/bounded", case, f"{enc}: output {n} > max_length {m}")
 
